@@ -60,6 +60,8 @@ def dispatchAll (st : MState) (line : String) : MState × String :=
   | "forest" :: "spec" :: rest => (st, (handleFspec st.forest ("spec" :: rest)).getD "bad-request")
   | "forest" :: "specx" :: rest => (st, (handleFspec st.forest ("specx" :: rest)).getD "bad-request")
   | "forest" :: "prog" :: rest => (st, (handleFanyorder st.forest rest).getD "bad-request")
+  | "forest" :: "specp" :: rest => (st, (handleFspec st.forest ("specp" :: rest)).getD "bad-request")
+  | "forest" :: "specpx" :: rest => (st, (handleFspec st.forest ("specpx" :: rest)).getD "bad-request")
   | "forest" :: "fixed" :: rest => (match handleFfixed st.forest rest with | some (fs, resp) => ({ st with forest := fs }, resp) | none => (st, "bad-request"))
   | "forest" :: rest =>
     (match handleFprefix st.d.env st.forest rest with
